@@ -38,4 +38,4 @@ def nontrivial(case, model_obs):
 
 signature = qc.signature
 PARTS = [{"name": "seq_queue", "harness": "seq_queue.cpp", "gen": gen_seq, "timeout_case": 20},
-         ][:1] + [{"name": "ctl_queue", "harness": "ctl_queue.cpp", "gen": gen_ctl, "timeout_case": 10}][:1 if __import__("os").path.exists(__import__("os").path.join(__import__("vlib").VERIF, "harness", "ctl_queue.cpp")) else 0]
+         {"name": "ctl_queue", "harness": "ctl_queue.cpp", "gen": gen_ctl, "timeout_case": 10}]
